@@ -650,7 +650,9 @@ Definition tab_apply (items : list item) (t : table) (o : tabop) : outcome :=
              match nth_error items i with
              | Some (Loop tags vals) =>
                let c := Z.to_nat p in
-               ok_ (set_nth i (Loop (firstn c tags ++ skipn (S c) tags) (remove_col (length tags - 1) c vals)) items)
+               if c <? length tags
+               then ok_ (set_nth i (Loop (firstn c tags ++ skipn (S c) tags) (remove_col (length tags - 1) c vals)) items)
+               else ub items      (* remove_column_at precondition n < tags.size() *)
              | _ => ub items
              end
            | None => ok_ (set_nth (Z.to_nat p) Erased items)
